@@ -86,6 +86,14 @@ fn any_scalar(rng: &mut Rng) -> Value {
         12 => {
             let tzs = chrono_tz::TZ_VARIANTS;
             let tz = tzs[rng.below(tzs.len())];
+            // the very edge of what a timestamp can hold: the local time (UTC + offset) may not be representable
+            if rng.chance(1, 8) {
+                use chrono::TimeZone;
+                let edge = if rng.coin() { chrono::NaiveDateTime::MAX } else { chrono::NaiveDateTime::MIN };
+                let back = chrono::Duration::seconds(rng.range(0, 100_000));
+                let ndt = if edge == chrono::NaiveDateTime::MAX { edge - back } else { edge + back };
+                return Value::make_datetime(DateTime::from(tz.from_utc_datetime(&ndt)));
+            }
             let secs = match rng.below(6) {
                 0 => -62_167_219_200 - 86400 * 400, // before year 0
                 1 => 253_402_300_800 + 86400 * 400, // after year 9999
